@@ -252,6 +252,11 @@ def run_case(case):
                     f"{list((sown_b - direct_b).elements())[:2]}, a direct "
                     f"run passes {list((direct_b - sown_b).elements())[:2]}")
         if resow:
+            if (N + B) % 2:
+                # some of the work has been done already when it is sown
+                # again (the batch files are rewritten all the same)
+                with under_test("grow before the re-sow"):
+                    crop.grow(tuple(range(1, B + 1, 2)))
             with under_test("re-sow"):
                 if resow == "recreate":
                     # a new object over the sown folder picks the batching up
